@@ -25,17 +25,13 @@ Definition s_entry (fs : fsys) (root : loc) (d : option str) (file : str) (argv 
            end
   end.
 
-(* defined only for well-formed databases whose commands argparse accepts *)
+(* defined for well-formed databases (every item has `file` and a command) *)
 Fixpoint s_db (fs : fsys) (root : loc) (es : list entry) : option (list s_out) :=
   match es with
   | [] => Some []
   | e :: r =>
       match e_file e, e_argv e, s_db fs root r with
-      | Some f, Some a, Some t =>
-          match extract_incs (tl a) with
-          | Ok incs => Some (s_entry fs root (e_dir e) f a incs :: t)
-          | Err _ => if is_supported f a then None else Some (SSkipUnsupported :: t)
-          end
+      | Some f, Some a, Some t => Some (s_entry fs root (e_dir e) f a (extract_incs (tl a)) :: t)
       | _, _, _ => None
       end
   end.
